@@ -44,15 +44,28 @@ type world struct {
 	tag   int
 }
 
-func newWorld(min bool) *world {
+// root describes how the first queue is constructed: kind + items handed to the constructor.
+type root struct {
+	Min  bool  `json:"min"`
+	Init []int `json:"init,omitempty"`
+}
+
+func newWorld(r root) *world {
 	w := &world{}
-	if min {
-		w.qs = append(w.qs, utils.NewMinPriorityQueue())
-	} else {
-		w.qs = append(w.qs, utils.NewMaxPriorityQueue())
+	var items []*utils.PriorityQueueItem
+	var ref []refItem
+	for _, p := range r.Init {
+		w.tag++
+		items = append(items, utils.NewPriorityQueueItem(float32(p), w.tag))
+		ref = append(ref, refItem{float32(p), w.tag})
 	}
-	w.isMin = append(w.isMin, min)
-	w.refs = append(w.refs, nil)
+	if r.Min {
+		w.qs = append(w.qs, utils.NewMinPriorityQueue(items...))
+	} else {
+		w.qs = append(w.qs, utils.NewMaxPriorityQueue(items...))
+	}
+	w.isMin = append(w.isMin, r.Min)
+	w.refs = append(w.refs, ref)
 	return w
 }
 
@@ -194,8 +207,16 @@ func (w *world) canon() string {
 	return sb.String()
 }
 
-func build(min bool, path []op) (*world, string, string) {
-	w := newWorld(min)
+func build(min root, path []op) (w *world, key string, desc string) {
+	defer func() {
+		if r := recover(); r != nil {
+			key, desc = "panic", fmt.Sprintf("constructor %+v panicked: %v", min, r)
+		}
+	}()
+	w = newWorld(min)
+	if k, d := w.observe(op{Kind: "construct"}); k != "" {
+		return w, "constructor-" + k, d
+	}
 	for _, o := range path {
 		if k, d := w.apply(o); k != "" {
 			return w, k, d
@@ -235,13 +256,44 @@ func main() {
 	states, transitions, maxDepthDone := 0, 0, 0
 	samples := &ev.Samples{N: 5}
 	outcomes := map[string]int{}
+	var roots []root
 	for _, min := range []bool{true, false} {
-		seen := map[string]bool{}
-		w0 := newWorld(min)
-		seen[w0.canon()] = true
+		roots = append(roots, root{Min: min})
+	}
+	for _, min := range []bool{true, false} {
+		for a := 0; a <= 3; a++ {
+			for b := 0; b <= 3; b++ {
+				roots = append(roots, root{Min: min, Init: []int{a, b}})
+				for c := 0; c <= 3; c++ {
+					roots = append(roots, root{Min: min, Init: []int{a, b, c}})
+				}
+			}
+		}
+	}
+	seenBy := map[bool]map[string]bool{true: {}, false: {}}
+	for _, min := range roots {
+		seen := seenBy[min.Min]
+		rootDepth := depth
+		if len(min.Init) > 0 {
+			rootDepth = depth - 2 // constructor-seeded roots merge quickly with states already seen
+		}
+		w0, k0, d0 := build(min, nil)
+		if k0 == "" {
+			dw, _, _ := build(min, nil)
+			k0, d0 = dw.drain()
+		}
+		transitions++
+		if k0 != "" {
+			outcomes[k0]++
+			run.Violation(k0, d0, map[string]interface{}{"min": min, "ops": []op{}})
+			continue
+		}
+		if c := w0.canon(); !seen[c] {
+			seen[c] = true
+			states++
+		}
 		frontier := [][]op{{}}
-		states++
-		for d := 0; d < depth && len(frontier) > 0; d++ {
+		for d := 0; d < rootDepth && len(frontier) > 0; d++ {
 			var next [][]op
 			for _, path := range frontier {
 				w, k, _ := build(min, path)
@@ -269,13 +321,13 @@ func main() {
 						states++
 						next = append(next, np)
 						if len(np) >= 4 && o.Kind == "reverse" {
-							samples.Add(fmt.Sprintf("min=%v %v", min, np))
+							samples.Add(fmt.Sprintf("root=%+v %v", min, np))
 						}
 					}
 				}
 			}
 			frontier = next
-			if min == false {
+			if len(min.Init) == 0 && !min.Min {
 				maxDepthDone = d + 1
 			}
 		}
@@ -291,7 +343,7 @@ func main() {
 		"max_depth_completed":           maxDepthDone,
 		"evaluations":                   transitions,
 		"distinct_nontrivial":           states,
-		"rule":                          "BFS over push/pop/reverse sequences on the real queue, both min and max roots; distinct = canonical state (heap layout up to cap, backing-array aliasing between queues, reference multiset)",
+		"rule":                          "BFS over push/pop/reverse sequences on the real queue from 162 roots (empty min/max queue and every constructor call with 2 or 3 initial items); distinct = canonical state (heap layout up to cap, backing-array aliasing between queues, reference multiset)",
 		"outcome_classes":               outcomes,
 		"samples":                       samples.List(),
 		"exhaustive":                    true,
@@ -302,7 +354,7 @@ func main() {
 func replay(path string) {
 	var f struct {
 		Replay struct {
-			Min bool `json:"min"`
+			Min root `json:"min"`
 			Ops []op `json:"ops"`
 		} `json:"replay"`
 	}
